@@ -319,4 +319,19 @@ example : exReadDesc.cmdCap ≤ (List.replicate 16 (165 : Byte)).length ∧
     (cstr exReadDesc (startFormatRead exReadDesc { ({} : St) with cmd := some 0, buf := List.replicate 16 165 } .cmd) .cmd)
       = ([43, 82, 61], true) := by decide
 
+/-- **exact text, first round, TEST of a command without variables** (partial in the same sense): when TEST of a command with a
+test handler and no variables is started, the next call invokes the test handler with exactly name ++ `=` (++ line break ++
+description, when the command has one) as NUL-terminated text, its length and the capacity -/
+theorem C06_first_test_text_partial (D : Desc) (s : St) (i : SvcIn) (hb : D.cmdCap ≤ s.buf.length) (hc : s.cmd.isSome = true)
+    (hv : ((D.cmdD s.cmd).vars.isSome && decide ((D.cmdD s.cmd).varNum > 0)) = false) (ht : (D.cmdD s.cmd).hasTest = true)
+    (hfit : (testText (D.cmdD s.cmd) (nlStr s)).length < D.cmdCap)
+    (hn : ∀ b ∈ testText (D.cmdD s.cmd) (nlStr s), b ≠ 0) :
+    tr .cbC (commandService D (startFormatTest D s .cmd) i).1.log =
+      tr .cbC (startFormatTest D s .cmd).log ++
+        [.handler .cmd .test (s.cmd.getD 0) (testText (D.cmdD s.cmd) (nlStr s)) true (testText (D.cmdD s.cmd) (nlStr s)).length
+          D.cmdCap i.hc.ret] := by
+  obtain ⟨hst, htx, hcm, hbl⟩ := startFormatTest_text D s hb hc hv ht hfit
+  have e := htx.cstr_eq hbl hn
+  rw [C06_test_handler D _ i hst, e.1, e.2, hcm]
+
 end Cat
